@@ -2,6 +2,7 @@ use crate::common::{Tier, Violation};
 use serde_json::Value;
 
 pub mod c06;
+pub mod c08;
 pub mod c13;
 pub mod c12;
 pub mod c09;
@@ -19,6 +20,7 @@ pub mod c17;
 pub fn run(id: &str, tier: Tier) -> i32 {
     match id {
         "C06" => c06::run(tier),
+        "C08" => c08::run(tier),
         "C13" => c13::run(tier),
         "C12" => c12::run(tier),
         "C09" => c09::run(tier),
@@ -44,6 +46,7 @@ pub fn replay(id: &str, v: &Value) -> i32 {
     let case = &v["case"];
     let f: fn(&Value) -> Option<Violation> = match id {
         "C06" => c06::replay_case,
+        "C08" => c08::replay_case,
         "C13" => c13::replay_case,
         "C12" => c12::replay_case,
         "C09" => c09::replay_case,
